@@ -263,9 +263,146 @@ def ob_serde_facets(chk, P):
         ob.absorb(ex)
 
 
+DERIVED = {
+    'ForloopObject': (r'::new\(_1: usize, _2: usize\) -> ForloopObject', 2,
+                      "{% for x in (1..2) %}@{% for kv in forloop %}{{kv[0]}}={{kv[1]}},{% endfor %}|{{forloop.size}}|{{forloop.length}},{{forloop.parentloop}},{{forloop.index0}},{{forloop.index}},{{forloop.rindex0}},{{forloop.rindex}},{{forloop.first}},{{forloop.last}},;{% endfor %}",
+                      lambda i, n: [('length', n), ('parentloop', ''), ('index0', i), ('index', i + 1), ('rindex0', n - i - 1), ('rindex', n - i), ('first', str(i == 0).lower()), ('last', str(i == n - 1).lower())]),
+    'TableRowObject': (r'::new\(_1: usize, _2: usize, _3: usize, _4: usize\) -> TableRowObject', 4,
+                       "{% tablerow x in (1..2) cols:2 %}@{% for kv in tablerow %}{{kv[0]}}={{kv[1]}},{% endfor %}|{{tablerow.size}}|{{tablerow.length}},{{tablerow.index0}},{{tablerow.index}},{{tablerow.rindex0}},{{tablerow.rindex}},{{tablerow.first}},{{tablerow.last}},{{tablerow.col0}},{{tablerow.col}},{{tablerow.col_first}},{{tablerow.col_last}},;{% endtablerow %}",
+                       lambda i, n: [('length', n), ('index0', i), ('index', i + 1), ('rindex0', n - i - 1), ('rindex', n - i), ('first', str(i == 0).lower()), ('last', str(i == n - 1).lower()),
+                                     ('col0', i), ('col', i + 1), ('col_first', str(i == 0).lower()), ('col_last', str(i == 1).lower())]),
+}
+
+
+def derived_expected(ty):
+    _, _, _, rec = DERIVED[ty]
+    out = ''
+    for i in range(2):
+        fields = rec(i, 2)
+        body = '@' + ''.join(f'{k}={v},' for k, v in fields) + f'|{len(fields)}|' + ','.join(str(v) for _, v in fields) + ',;'
+        out += (f'<tr class="row1">' if (ty == 'TableRowObject' and i == 0) else '') + (f'<td class="col{i + 1}">' + body + '</td>' if ty == 'TableRowObject' else body)
+    return out + ('</tr>' if ty == 'TableRowObject' else '')
+
+
+def derived_normalise(out):
+    """the order in which a template iterates over an object is unspecified: sort the k=v items of every listing"""
+    import re
+    return re.sub(r'@((?:[^,|@]*,)+)\|', lambda m: '@' + ''.join(sorted(x + ',' for x in m.group(1)[:-1].split(','))) + '|', out or '')
+
+
+def ob_derive(chk, P):
+    from mirsym.models.iters import drain, iter_arg
+    with chk.obligation('derive/object-view', 'the ObjectView/ValueView code the derive macros generate for the in-repository structs (forloop, tablerow records) maps every field NAME to exactly that field: '
+                        'get(name) is the field called name and nothing for every other name, contains_key agrees with get, size is the number of fields, keys/values/iter list every field exactly once (iter pairs each name with its own field; the order is not part of the claim), '
+                        'and the record answers as an object (as_object is itself, is_nil false, truthy)',
+                        {'records': 'ForloopObject, TableRowObject with every field an independent symbolic value', 'names': 'every string of 0..12 symbolic characters (any Unicode scalar value)'}) as ob:
+        from mirsym.models.strings import valid_char
+        ex = Executor(P, ALL_MODELS); ex.seed = chk.seed; ex.max_steps = 100000
+        ob.assumptions += ['only the instantiations of the derive macros that exist in the repository are executed (a derive on a user struct is outside)']
+        for ty, (newpat, nargs, tpl, _) in DERIVED.items():
+            fn_new = P.find(newpat, 'lib')
+            shape = None
+            for s2, k, v in ex.run(fn_new, [Int(z3.BitVecVal(a, 64), 'usize') for a in ((0, 2) if nargs == 2 else (0, 2, 0, 2))], State()):
+                if k == 'ret': shape = v
+            if shape is None: raise Unsupported(f'{ty}::new did not return')
+            names = list(shape.names)
+            items = []
+            for j, it in enumerate(shape.items):
+                if isinstance(it, Int): items.append(Int(z3.BitVec(f'f{j}', 64), it.ty))
+                elif isinstance(it, Bool): items.append(Bool(z3.Bool(f'f{j}')))
+                else: items.append(it)
+            rec = Adt(ty, None, items, names)
+            sc = {'kind': 'template', 'template': tpl}
+            chk.validate(f'derive/{ty}/template-view', derived_normalise(derived_expected(ty)), sc, lambda res: derived_normalise(res.get('output')))
+            conf = lambda r, e=derived_normalise(derived_expected(ty)): r.get('outcome') != 'ok' or derived_normalise(r.get('output')) != e
+            def bad(role, what, witness):
+                ob.violation(f'derive/{ty}/{role}', what, witness, sc, conf)
+            m = {k: P.find_method(ty, k, 'ObjectView', 'lib') for k in ('get', 'contains_key', 'size', 'keys', 'values', 'iter')}
+            maxlen = max(len(n) for n in names) + 1
+            for ln in range(0, maxlen + 1):
+                st = State(); cs = [z3.BitVec(f'n{i}', 32) for i in range(ln)]
+                for c in cs: st.assume(valid_char(c))
+                r_rec = st.ref(rec)
+                for s2, k, v in ex.run(m['get'], [r_rec, st.ref(StrV(cs, 'str'))], st):
+                    ob.paths += 1; ob.reached()
+                    same = [j for j, n in enumerate(names) if len(n) == ln]
+                    is_name = {j: (z3.And(*[c == ord(ch) for c, ch in zip(cs, names[j])]) if ln else z3.BoolVal(True)) for j in same}
+                    if k != 'ret':
+                        mm = ob.decide(ex, s2.conds, z3.BoolVal(True)); bad('get/panic', f'{ty}::get ends with {k} {v}', {}); continue
+                    if v.variant == 'Some' and isinstance(v.items[0], Ref) and v.items[0].alloc == r_rec.alloc and len(v.items[0].path) == 1:
+                        j = v.items[0].path[0]
+                        post = is_name.get(j, z3.BoolVal(False))
+                        desc = f'field #{j} ({names[j] if j < len(names) else "?"})'
+                    elif v.variant == 'None':
+                        post = z3.Not(z3.Or(*is_name.values())) if is_name else z3.BoolVal(True); desc = 'nothing'
+                    else:
+                        post = z3.BoolVal(False); desc = repr(v)
+                    mm = ob.decide(ex, s2.conds, z3.Not(post))
+                    if mm is not None:
+                        nm = ''.join(chr(mm.eval(c, model_completion=True).as_long()) for c in cs)
+                        bad('get/wrong-field', f'{ty}::get({nm!r}) answers with {desc}', {'name': nm})
+                    # contains_key agrees with get on the same path
+                    for s3, k3, v3 in ex.run(m['contains_key'], [r_rec, s2.ref(StrV(cs, 'str'))], s2.clone()):
+                        ob.paths += 1
+                        want = v.variant == 'Some'
+                        ok = k3 == 'ret' and isinstance(v3, Bool)
+                        mm = ob.decide(ex, s3.conds, z3.BoolVal(True) if not ok else (v3.e != z3.BoolVal(want)))
+                        if mm is not None:
+                            nm = ''.join(chr(mm.eval(c, model_completion=True).as_long()) for c in cs)
+                            bad('contains_key/disagrees-with-get', f'{ty}::contains_key({nm!r}) is {v3} while get gives {desc}', {'name': nm})
+            # size / keys / values / iter
+            st = State(); r_rec = st.ref(rec)
+            for s2, k, v in ex.run(m['size'], [r_rec], st.clone()):
+                ob.paths += 1
+                if not (k == 'ret' and isinstance(v, Int) and v.concrete() == len(names)): bad('size', f'{ty}::size is {v}, the record has {len(names)} fields', {})
+            def listing(which):
+                for s2, k, v in ex.run(m[which], [r_rec], st.clone()):
+                    ob.paths += 1
+                    if k != 'ret':
+                        yield None; continue
+                    d, _ = iter_arg(s2, v)
+                    for s3, got in drain(ex, s2, d.data, 0):
+                        yield s3, got
+            for r in listing('keys'):
+                got = None if r is None or isinstance(r[1], tuple) else [''.join(chr(c) for c in r[0].deref_all(x).chars) if hasattr(r[0].deref_all(x), 'chars') else repr(x) for x in r[1]]
+                if got is None or sorted(got) != sorted(names): bad('keys', f'{ty}::keys lists {got}, the fields are {names}', {})
+            for r in listing('values'):
+                got = None if r is None or isinstance(r[1], tuple) else [(x.alloc == r_rec.alloc and x.path) if isinstance(x, Ref) else repr(x) for x in r[1]]
+                if got is None or sorted(map(repr, got)) != sorted(repr((j,)) for j in range(len(names))): bad('values', f'{ty}::values lists {got}', {})
+            for r in listing('iter'):
+                got = None
+                if r is not None and not isinstance(r[1], tuple):
+                    got = []
+                    for x in r[1]:
+                        kk, vv = x.items[0], x.items[1]
+                        ks = r[0].deref_all(kk)
+                        got.append((''.join(chr(c) for c in ks.chars) if hasattr(ks, 'chars') else repr(kk), (vv.alloc == r_rec.alloc and vv.path) if isinstance(vv, Ref) else repr(vv)))
+                if got is None or sorted(map(repr, got)) != sorted(repr((n, (j,))) for j, n in enumerate(names)): bad('iter', f'{ty}::iter lists {got}', {})
+            # the record as a value
+            for meth, want in (('is_nil', 'false'), ('as_object', 'self'), ('type_name', 'object')):
+                try:
+                    f = view_method(P, ty, meth) if False else P.find_method(ty, meth, 'ValueView', 'lib')
+                except Unsupported:
+                    f = P.find(r'^fn (?:\w+::)*ValueView::' + meth + r'\(', 'core')
+                for s2, k, v in ex.run(f, [r_rec], st.clone()):
+                    ob.paths += 1
+                    if meth == 'is_nil': ok = k == 'ret' and isinstance(v, Bool) and v.concrete() is False
+                    elif meth == 'as_object': ok = k == 'ret' and v.variant == 'Some' and isinstance(v.items[0], Ref) and v.items[0].alloc == r_rec.alloc and not v.items[0].path
+                    else: ok = k == 'ret' and ''.join(chr(c) for c in s2.deref_all(v).chars) == 'object'
+                    if not ok: bad(meth, f'{ty}::{meth} answers {v}', {})
+            for state, want in (('Truthy', True), ('DefaultValue', False), ('Empty', False), ('Blank', False)):
+                f = P.find_method(ty, 'query_state', 'ValueView', 'lib')
+                for s2, k, v in ex.run(f, [r_rec, Adt('State', state, [])], st.clone()):
+                    ob.paths += 1
+                    if not (k == 'ret' and isinstance(v, Bool) and v.concrete() is want): bad('query_state', f'{ty}::query_state({state}) answers {v}', {})
+            ob.sample({'record': ty, 'fields': names})
+        ob.absorb(ex)
+
+
 def run(chk):
-    P = chk.program(('core',))
+    P = chk.program(('core', 'lib'))
     ob_forwarding(chk, P)
     ob_owned_agreement(chk, P)
     ob_narrowing(chk, P)
     ob_serde_facets(chk, P)
+    ob_derive(chk, P)
